@@ -1633,3 +1633,57 @@ Proof.
     constructor; [reflexivity|constructor].
 Qed.
 
+(* PMX with cut points 1..2 (the second index is redrawn once because it repeated the first):
+   p1 = 1 2 3 4 5, p2 = 3 5 1 2 4 -> o1 = 3 5 1 4 2, o2 = 1 2 3 5 4 *)
+Example exd_pmx_run :
+  exists c1 c2, pmx Z unit Z.eqb (FZ 1) exd_types 2%nat [exd_p1; exd_p2]
+                    [DUnif (FZ 0); DIdx 1; DIdx 1; DIdx 2; DUnif (FZ 2); DUnif (FZ 2)] = Ok ([c1; c2], 4%nat, [DUnif (FZ 2); DUnif (FZ 2)])
+    /\ vars c1 = [VPerm [3; 5; 1; 4; 2]%Z; VSub [10; 11]%Z; VBits [true; false; true]]
+    /\ vars c2 = [VPerm [1; 2; 3; 5; 4]%Z; VSub [12; 10]%Z; VBits [false; false; false]]
+    /\ evaluated c1 = false /\ evaluated c2 = false.
+Proof. eexists _, _. vm_compute. repeat split. Qed.
+
+(* Insertion, both shift directions *)
+Example exd_insertion_runs :
+  (exists c, insertion Z unit (FZ 1) exd_types 2%nat exd_p1 [DUnif (FZ 0); DIdx 4; DIdx 1] = Ok (c, 3%nat, [])
+     /\ vars c = [VPerm [1; 5; 2; 3; 4]%Z; VSub [10; 11]%Z; VBits [true; false; true]] /\ evaluated c = false)
+  /\ (exists c, insertion Z unit (FZ 1) exd_types 2%nat exd_p1 [DUnif (FZ 0); DIdx 1; DIdx 4] = Ok (c, 3%nat, [])
+     /\ vars c = [VPerm [1; 3; 4; 5; 2]%Z; VSub [10; 11]%Z; VBits [true; false; true]]).
+Proof. split; eexists; vm_compute; repeat split. Qed.
+
+(* Swap: i = 0, j = 0 redrawn twice (0, then 3) *)
+Example exd_swap_redraw_run :
+  exists c, swap Z unit (FZ 1) exd_types 2%nat exd_p1 [DUnif (FZ 0); DIdx 0; DIdx 0; DIdx 0; DIdx 3] = Ok (c, 3%nat, [])
+    /\ vars c = [VPerm [4; 2; 3; 1; 5]%Z; VSub [10; 11]%Z; VBits [true; false; true]] /\ evaluated c = false.
+Proof. eexists. vm_compute. repeat split. Qed.
+
+(* a probability draw above the threshold leaves the child evaluated and field-equal to its parent *)
+Example exd_swap_untouched :
+  exists c, swap Z unit (F 1 (-2)) exd_types 2%nat exd_p1 [DUnif (F 1 (-1))] = Ok (c, 3%nat, [])
+    /\ vars c = vars exd_p1 /\ evaluated c = true /\ sid c = 2%nat.
+Proof. eexists. vm_compute. repeat split. Qed.
+
+Example exd_replace_run :
+  exists c, replace Z unit Z.eqb (FZ 1) exd_types 2%nat exd_p1 [DUnif (FZ 0); DIdx 1; DIdx 1] = Ok (c, 3%nat, [])
+    /\ vars c = [VPerm [1; 2; 3; 4; 5]%Z; VSub [10; 13]%Z; VBits [true; false; true]] /\ evaluated c = false.
+Proof. eexists. vm_compute. repeat split. Qed.
+
+Example exd_hux_run :
+  exists c1 c2, hux Z unit (FZ 1) exd_types 2%nat [exd_p1; exd_p2] [DUnif (FZ 0); DBit true; DBit false] = Ok ([c1; c2], 4%nat, [])
+    /\ vars c1 = [VPerm [1; 2; 3; 4; 5]%Z; VSub [10; 11]%Z; VBits [false; false; true]]
+    /\ vars c2 = [VPerm [3; 5; 1; 2; 4]%Z; VSub [12; 10]%Z; VBits [true; false; false]].
+Proof. eexists _, _. vm_compute. repeat split. Qed.
+
+Example exd_bitflip_run :
+  exists c, bitflip Z unit (PInt 1) exd_types 2%nat exd_p1 [DUnif (FZ 0); DUnif (FZ 1); DUnif (F 1 (-2))] = Ok (c, 3%nat, [])
+    /\ vars c = [VPerm [1; 2; 3; 4; 5]%Z; VSub [10; 11]%Z; VBits [false; false; false]].
+Proof. eexists. vm_compute. repeat split. Qed.
+
+(* SSX: position 0 is exchanged (12 not in s1, 10 not in s2, draw < 0.5), position 1 is not (draw >= 0.5) *)
+Example exd_ssx_run :
+  let ts := [TSubset [10; 11; 12; 13]%Z 2] in
+  let a := mkSol 0 [VSub [10; 11]%Z] true tt in
+  let b := mkSol 1 [VSub [12; 13]%Z] true tt in
+  exists c1 c2, ssx Z unit Z.eqb (FZ 1) ts 2%nat [a; b] [DUnif (FZ 0); DUnif (FZ 0); DUnif (F 1 (-1))] = Ok ([c1; c2], 4%nat, [])
+    /\ vars c1 = [VSub [12; 11]%Z] /\ vars c2 = [VSub [10; 13]%Z] /\ evaluated c1 = false.
+Proof. eexists _, _. vm_compute. repeat split. Qed.
